@@ -158,6 +158,78 @@ def real_banks(run, tier, nprng):
     run.extra["real_bank_cases"] = len(todo)
 
 
+def count_level(run, tier, nprng):
+    """SiCount: TLC (small), Apalache inductive invariant at real sizes (unbounded N and chunk sizes), and
+    recorded chunked executions of real banks validated by TraceSiCount."""
+    r = common.tlc("SiCount", "SiCount_tlc.cfg", workers=4, timeout=600)
+    if r.violated:
+        run.violation({"kind": "model_" + r.violated, "module": "SiCount", "detail": r.errtext[-2000:]})
+    run.add_tlc("SiCount", r)
+    mods = ["MC_SiCount_2_5_2_8_0", "MC_SiCount_80_401_200_512_1"] if tier == "quick" else \
+        ["MC_SiCount_2_5_2_8_0", "MC_SiCount_2_5_2_6_1", "MC_SiCount_80_401_200_512_1", "MC_SiCount_80_321_0_512_0",
+         "MC_SiCount_160_801_400_1024_1", "MC_SiCount_3_6_2_8_0"]
+    from concurrent.futures import ThreadPoolExecutor
+    jobs = [(m, "Init", 0) for m in mods] + [(m, "IndInit", 1) for m in mods]
+    with ThreadPoolExecutor(max_workers=6) as ex:
+        res = list(ex.map(lambda j: common.apalache(j[0], j[1], "IndInv", j[2]), jobs))
+    out = []
+    for (m, init, ln), verdict in zip(jobs, res):
+        out.append({"module": m, "obligation": "Init => IndInv" if ln == 0 else "IndInv and Next => IndInv'", "verdict": verdict})
+        if verdict == "violated":
+            run.violation({"kind": "apalache_inductive_invariant_violated", "module": m, "init": init, "length": ln})
+    run.extra["apalache"] = out
+    run.extra["apalache_discharged"] = sum(1 for o in out if o["verdict"] == "ok")
+    if any(o["verdict"].startswith("not_attempted") for o in out):
+        run.not_decided.append("Apalache obligations not attempted: " + "; ".join("%s %s" % (o["module"], o["verdict"][:60]) for o in out if o["verdict"] != "ok"))
+    # real banks, chunked, count level
+    traces, tid = [], 0
+    for rate in (8000, 16000):
+        for style in ("causal", "centered"):
+            bank = filters.GaborFilterBank("mel", num_filts=12, sampling_rate=rate)
+            shift_ms = 10
+            while True:
+                comp = compute.SIFrameComputer(bank, frame_shift_ms=shift_ms, frame_style=style)
+                S, M, Tt, D = comp._frame_shift, comp._max_support, comp._translation, comp._dft_size
+                # C03's precondition: the shift is shorter than the one-sided support
+                ok = (S < M - M // 2) if style == "centered" else (S < max(r for l, r in bank.supports))
+                if ok or shift_ms < 0.5:
+                    break
+                shift_ms /= 2.0
+            if not ok:
+                continue
+            for _ in range(10 if tier == "quick" else 80):
+                N = int(nprng.choice([0, 1, S // 2, S, M, D, D + 1, 3 * D + 7, nprng.randint(1, 5 * D)]))
+                x = nprng.randn(N)
+                events, p = [], 0
+                while p < N or nprng.rand() < 0.15:
+                    k = int(min(N - p, nprng.choice([0, 1, S, S + 1, M, D - M, D, 2 * D + 3, nprng.randint(0, D)])))
+                    o = comp.compute_chunk(x[p:p + k])
+                    p += k
+                    events.append({"a": "chunk", "c": k, "nret": int(o.shape[0]), "st": bool(comp.started),
+                                   "p": {"skip": int(comp._skip), "xRem": int(comp._x_rem), "yRem": int(comp._y_rem)}})
+                    if len(events) > 50:
+                        break
+                if p < N:
+                    o = comp.compute_chunk(x[p:])
+                    events.append({"a": "chunk", "c": N - p, "nret": int(o.shape[0]), "st": bool(comp.started),
+                                   "p": {"skip": int(comp._skip), "xRem": int(comp._x_rem), "yRem": int(comp._y_rem)}})
+                o = comp.finalize()
+                events.append({"a": "finalize", "c": 0, "nret": int(o.shape[0]), "st": bool(comp.started),
+                               "p": {"skip": 0, "xRem": 0, "yRem": 0}})
+                tid += 1
+                traces.append({"tid": tid, "cfg": {"S": S, "M": M, "T": Tt, "D": D, "centered": style == "centered"}, "N": N, "events": events})
+                run.evaluations += 1
+    rej, r = common.validate_traces_parallel("TraceSiCount", "TraceSiCount.cfg", traces, shards=4)
+    run.traces += len(traces)
+    run.states += r.distinct
+    run.transitions += r.generated
+    byid = {t["tid"]: t for t in traces}
+    for (tid_, line, clause) in rej:
+        t = byid[tid_]
+        run.violation({"kind": "si_real_size_count_" + clause, "cfg": t["cfg"], "N": t["N"], "event": line, "trace": t})
+    run.extra["real_size_count_traces"] = len(traces)
+
+
 def run(tier, seed):
     run = common.Run("C03", tier, seed)
     rng = random.Random(seed)
@@ -165,6 +237,7 @@ def run(tier, seed):
     si_model.model_check(run, tier)
     si_model.record_and_validate(run, tier, rng, prop="C03")
     real_banks(run, tier, nprng)
+    count_level(run, tier, nprng)
     run.extra["rule"] = "stub banks: option matrix x lengths around 0,S,M,D,2D x float32/64 vs the TLC-exported definition; real banks: 8/16 kHz, lengths around 0,S,L,1-3 DFT blocks, three float dtypes"
     run.assumptions += ["the bank's get_impulse_response and the window taps are taken from the library (C07/C20's business)",
                         "stub filters for the centered style have a zero last tap so that they fit the window the computer keeps"]
